@@ -223,6 +223,9 @@ def scenarios(tier):
             add("writers-fresh-key", byname_q["writers-fresh-key"], "warm", fl_, None, por=True)
             add("write-vs-remove-fresh-key", byname_q["write-vs-remove-fresh-key"], "warm", fl_, None, por=True)
             add("writers-same-key", pairs("quick")[0][1], "cold", fl_, 1)
+            # an async writer of bytes that are already stored, against a reader / an existence test / a remover of that address
+            for nm_ in ("write-vs-read_hash", "write_hash-vs-exists", "write-vs-remove_hash"):
+                add(nm_, byname_q[nm_], "warm", fl_, None, por=True)
     else:
         cur_names = {n_ for n_, _ in pairs("quick")}
         for name, ops in pairs("thorough"):
